@@ -162,3 +162,100 @@ def prn_label(base: int, satid: int):
 
 
 NA = "N/A"
+
+
+# ---------------------------------------------------------------------------
+# pinned layouts: snapshot of the definition structure (S), and hand-written
+# bit-length formulas from RTCM 10403.3 / IGS SSR v1 (X)
+# ---------------------------------------------------------------------------
+_CLASS2TYPE = {"U": "UINT", "I": "INT", "S": "SNT", "C": "CHA", "T": "STR", "D": "PRN"}
+_TABLES = None
+
+
+def load_tables():
+    """-> (fields, defs) in the same format as pyrtcm's tables (types by class)."""
+    global _TABLES  # pylint: disable=global-statement
+    if _TABLES is None:
+        import json  # pylint: disable=import-outside-toplevel
+        import os  # pylint: disable=import-outside-toplevel
+
+        with open(os.path.join(os.path.dirname(__file__), "pinned_tables.json"),
+                  encoding="utf-8") as fh:
+            raw = json.load(fh)
+        fields = {k: (_CLASS2TYPE[c], w, 0, k) for k, (c, w) in raw["fields"].items()}
+
+        def dec(items):
+            out = {}
+            for key, v in items:
+                if v == "F":
+                    out[key] = key
+                elif "cond" in v:
+                    out[key] = ((v["cond"][0], v["cond"][1]), dec(v["body"]))
+                else:
+                    out[key] = (v["rep"], dec(v["body"]))
+            return out
+
+        _TABLES = (fields, {k: dec(v) for k, v in raw["defs"].items()})
+    return _TABLES
+
+
+def _msm_len(level):
+    sat = {1: 10, 2: 10, 3: 10, 4: 18, 5: 36, 6: 18, 7: 36}[level]
+    cell = {1: 15, 2: 27, 3: 42, 4: 48, 5: 63, 6: 65, 7: 80}[level]
+    return sat, cell
+
+
+# X: (fixed bits, per-item bits[, per-inner-item bits]) written from the standards.
+X_LENGTHS = {
+    "1001": (64, 58), "1002": (64, 74), "1003": (64, 101), "1004": (64, 125),
+    "1005": (152,), "1006": (168,), "1007": (40, 8), "1008": (48, 8),
+    "1009": (61, 64), "1010": (61, 79), "1011": (61, 107), "1012": (61, 130),
+    "1013": (70, 29), "1014": (117,), "1015": (76, 28), "1016": (76, 36), "1017": (76, 53),
+    "1019": (488,), "1020": (360,), "1023": (578,), "1024": (590,), "1025": (196,),
+    "1026": (234,), "1027": (258,), "1029": (72, 8), "1030": (56, 49), "1031": (53, 49),
+    "1032": (156,), "1033": (72, 8), "1037": (73, 28), "1038": (73, 36), "1039": (73, 53),
+    "1041": (482,), "1042": (511,), "1044": (485,), "1045": (496,), "1046": (504,),
+    "1057": (68, 135), "1058": (67, 76), "1059": (67, 11, 19), "1060": (68, 205),
+    "1061": (67, 12), "1062": (67, 28), "1063": (65, 134), "1064": (64, 75),
+    "1065": (64, 10, 19), "1066": (65, 204), "1067": (64, 11), "1068": (64, 27),
+}
+for _b in (20, 40, 60, 80, 100, 120):
+    X_LENGTHS[f"4076_{_b + 1:03d}"] = (79, 135)
+    X_LENGTHS[f"4076_{_b + 2:03d}"] = (78, 76)
+    X_LENGTHS[f"4076_{_b + 3:03d}"] = (79, 205)
+    X_LENGTHS[f"4076_{_b + 4:03d}"] = (78, 28)
+    X_LENGTHS[f"4076_{_b + 5:03d}"] = (78, 11, 19)
+    X_LENGTHS[f"4076_{_b + 6:03d}"] = (80, 28, 32)
+    X_LENGTHS[f"4076_{_b + 7:03d}"] = (78, 12)
+
+
+def x_length(identity, counts):
+    """
+    Bit length by the hand-written formula, or None if this identity has none.
+    counts: for simple types the list of top-level counter values (all groups
+    have the same per-item size in the types listed: text/descriptor counters);
+    for nested types a list of inner counts, one per outer item.
+    """
+    if identity.isdigit() and int(identity) in MSM_NUMBERS:
+        nsat, nsig, ncell = counts
+        sat, cell = _msm_len(int(identity) % 10)
+        return 169 + nsat * nsig + nsat * sat + ncell * cell
+    if identity == "1230":
+        return 32 + 16 * sum(counts)
+    if identity == "4076_201":
+        # counts: list of (degree_raw, order_raw) per layer
+        tot = 83
+        for d, o in counts:
+            n, m = d + 1, o + 1
+            cos = (m + 1) * (n + 1) - m * (m + 1) // 2
+            sin = cos - (n + 1)
+            tot += 16 + 16 * (cos + sin)
+        return tot
+    f = X_LENGTHS.get(identity)
+    if f is None:
+        return None
+    if len(f) == 1:
+        return f[0]
+    if len(f) == 2:
+        return f[0] + f[1] * sum(counts)
+    return f[0] + sum(f[1] + f[2] * inner for inner in counts)
